@@ -219,6 +219,9 @@ struct Shared {
     reentrant: u64,
     log: Vec<String>,
     ready: bool,
+    /// free-running mode: this many threads clone the borrowed waker of the current poll at the
+    /// same time (a `&Waker` is Sync); their clones go to the last handle slots
+    concurrent_clones: usize,
 }
 
 fn note(sh: &Mutex<Shared>, wake: bool, line: String) {
@@ -306,6 +309,26 @@ struct SimObj {
 
 impl SimObj {
     fn inside(&self, cx: &mut Context<'_>) -> bool {
+        let n = std::mem::take(&mut self.sh.lock().unwrap().concurrent_clones);
+        if n > 0 {
+            let w: &Waker = cx.waker();
+            let sh = &self.sh;
+            std::thread::scope(|sc| {
+                for i in 0..n {
+                    sc.spawn(move || {
+                        let c = w.clone();
+                        let mut g = sh.lock().unwrap();
+                        let slot = NH - 1 - i;
+                        if g.handles[slot].is_none() {
+                            g.handles[slot] = Some(c);
+                        } else {
+                            drop(g);
+                            drop(c);
+                        }
+                    });
+                }
+            });
+        }
         let ops = std::mem::take(&mut self.sh.lock().unwrap().pending);
         for op in ops {
             run_wop(&self.sh, op, Some(cx.waker()));
@@ -613,7 +636,7 @@ fn new_state(kind: i64, caller_kind: i64) -> State {
     } else {
         Waker::from(cw)
     };
-    let sh = Arc::new(Mutex::new(Shared { pending: Vec::new(), handles: (0..NH).map(|_| None).collect(), wakes_done: 0, effective: 0, reentrant: 0, log: Vec::new(), ready: false }));
+    let sh = Arc::new(Mutex::new(Shared { pending: Vec::new(), handles: (0..NH).map(|_| None).collect(), wakes_done: 0, effective: 0, reentrant: 0, log: Vec::new(), ready: false, concurrent_clones: 0 }));
     *unsafe { &*wref }.pool.lock().unwrap() = Some(sh.clone());
     let obj = make_obj(kind, &sh);
     State { sh, obj: Some(obj), w, wref, caller: Some(caller), drops, static_caller, node_caller, foreign_caller, _keep: keep, in_poll: false, poll_entry: 0, model_wakes: 0 }
@@ -779,6 +802,8 @@ fn exec_free(plan: &Plan, ctx: &mut RunCtx) -> VResult {
             st.sh.lock().unwrap().pending.push(op);
         }
     }
+    // inside that poll two threads also clone the borrowed waker at the same time
+    st.sh.lock().unwrap().concurrent_clones = 2;
     let mut counts = Vec::new();
     do_poll(&mut st, &mut counts)?;
     let mut total_wakes = st.sh.lock().unwrap().wakes_done;
@@ -803,7 +828,7 @@ fn exec_free(plan: &Plan, ctx: &mut RunCtx) -> VResult {
         for (t, mine) in per_thread.into_iter().enumerate() {
             let steps = &plan.steps;
             hs.push(sc.spawn(move || {
-                let sh = Mutex::new(Shared { pending: Vec::new(), handles: mine, wakes_done: 0, effective: 0, reentrant: 0, log: Vec::new(), ready: false });
+                let sh = Mutex::new(Shared { pending: Vec::new(), handles: mine, wakes_done: 0, effective: 0, reentrant: 0, log: Vec::new(), ready: false, concurrent_clones: 0 });
                 for step in steps.iter().filter(|s| (s.t as usize) % threads == t && s.t != 0 || threads == 1) {
                     if let Some(op) = parse_wop(step) {
                         run_wop(&sh, op, None);
